@@ -195,6 +195,53 @@ def hoist_temps(source, rnd):
     return ast.unparse(tree)
 
 
+def _terminates(body):
+    if not body:
+        return False
+    last = body[-1]
+    if isinstance(last, (ast.Return, ast.Raise, ast.Continue, ast.Break)):
+        return True
+    if isinstance(last, ast.If) and last.orelse:
+        return _terminates(last.body) and _terminates(last.orelse)
+    return False
+
+
+def restructure(source, rnd):
+    """Control-flow re-phrasings that keep behaviour: `if c: return X; rest` -> `if c: return X else: rest`;
+    `if c: A else: B` -> `if not c: B else: A`; `x = v` -> `x: object = v`."""
+    tree = ast.parse(source)
+
+    def process(body, in_func):
+        out = []
+        i = 0
+        while i < len(body):
+            s = body[i]
+            for field in ('body', 'orelse', 'finalbody'):
+                sub = getattr(s, field, None)
+                if isinstance(sub, list) and sub and isinstance(sub[0], ast.stmt):
+                    setattr(s, field, process(sub, in_func or isinstance(s, (ast.FunctionDef, ast.AsyncFunctionDef))))
+            for h in getattr(s, 'handlers', []) or []:
+                h.body = process(h.body, in_func)
+            if in_func and isinstance(s, ast.If) and not s.orelse and _terminates(s.body) and i + 1 < len(body) and rnd.random() < 0.6 \
+                    and not any(isinstance(x, (ast.FunctionDef, ast.ClassDef)) for x in body[i + 1:]):
+                rest = process(body[i + 1:], in_func)
+                s.orelse = rest
+                out.append(s)
+                return out
+            if in_func and isinstance(s, ast.If) and s.orelse and not (len(s.orelse) == 1 and isinstance(s.orelse[0], ast.If)) and rnd.random() < 0.5:
+                s.test = ast.UnaryOp(op=ast.Not(), operand=s.test)
+                s.body, s.orelse = s.orelse, s.body
+            if in_func and isinstance(s, ast.Assign) and len(s.targets) == 1 and isinstance(s.targets[0], ast.Name) and rnd.random() < 0.3:
+                s = ast.AnnAssign(target=s.targets[0], annotation=ast.Name(id='object', ctx=ast.Load()), value=s.value, simple=1,
+                                  lineno=s.lineno, col_offset=s.col_offset)
+            out.append(s)
+            i += 1
+        return out
+    tree.body = process(tree.body, False)
+    ast.fix_missing_locations(tree)
+    return ast.unparse(tree)
+
+
 # -- generic breaking operators ---------------------------------------------------
 
 CMP_SWAP = {ast.Lt: ast.LtE, ast.LtE: ast.Lt, ast.Gt: ast.GtE, ast.GtE: ast.Gt, ast.Eq: ast.NotEq, ast.NotEq: ast.Eq,
@@ -348,6 +395,7 @@ def run(prop, repo, chk, seed):
             add('benign', 'reformat:' + rel, {rel: reformat(files[rel])})
             add('benign', 'noise:' + rel, {rel: add_noise(files[rel])})
             add('benign', 'hoist:' + rel, {rel: hoist_temps(files[rel], random.Random(seed + 1))})
+            add('benign', 'restructure:' + rel, {rel: restructure(files[rel], random.Random(seed + 2))})
         except SyntaxError:
             pass
     # generic
